@@ -1123,6 +1123,40 @@ def merge(chunks, real_text):
             continue
         image[a_] = image.pop(b_)
         image[pa_] = image.pop(pb_)
+    # inserted bracket pairs in the CURRENT text: `S; }` vs `{ S; } }` (a statement wrapped in a block, an expression in parentheses).  The
+    # differ matches the old closer with the FIRST of the equal closers and reports the LAST one as new - then whatever is anchored after
+    # the old closer lands inside the block that the old closer used to end.  If a new opener's partner (in the current text) is matched while
+    # a later closer of the same run of closers is new, the matches of the run are shifted by one: the partner becomes the new token.
+    partner1 = {}
+    stack1 = []
+    for i_, tok in enumerate(r1):
+        if tok in ('(', '[', '{'):
+            stack1.append(i_)
+        elif tok in (')', ']', '}') and stack1:
+            j_ = stack1.pop()
+            partner1[i_] = j_
+            partner1[j_] = i_
+    for _pass in range(8):
+        inv = {v: k for k, v in image.items()}
+        moved = False
+        for o_ in range(len(r1)):
+            if r1[o_] not in ('(', '[', '{') or o_ in inv:
+                continue
+            c_ = partner1.get(o_)
+            if c_ is None or c_ not in inv:
+                continue
+            q_ = c_
+            while q_ + 1 < len(r1) and r1[q_ + 1] == r1[c_] and q_ in inv:
+                q_ += 1
+            if q_ == c_ or q_ in inv or r1[q_] != r1[c_] or any(k not in inv for k in range(c_, q_)):
+                continue
+            # the closers c_ .. q_-1 are matched, q_ is new: shift
+            for k in range(q_ - 1, c_ - 1, -1):
+                image[inv[k]] = k + 1
+            moved = True
+            break
+        if not moved:
+            break
     n0 = len(r0)
     done_runs = set()
     for _ in range(200):
@@ -1195,6 +1229,13 @@ def merge(chunks, real_text):
                 choice = ('before', nxt)
             elif prv is not None:
                 choice = ('after', prv)
+            if choice is not None and choice[0] == 'before':
+                # a BARE block newly put around the statement the insertion stands before (`S;` -> `{ S; }`): the insertion stays outside,
+                # before the new `{`, so that what it declares is still in scope for the annotations that follow the statement
+                x_ = choice[1]
+                while x_ - 1 >= 0 and r1[x_ - 1] == '{' and (x_ - 1) not in matched1 and (x_ - 2 < 0 or r1[x_ - 2] in (';', '{', '}')):
+                    x_ -= 1
+                choice = ('before', x_)
             if choice is None and 0 < p < len(r0):
                 a = p
                 while a > 0 and (a - 1) not in image:
